@@ -23,7 +23,7 @@ SALT = 15
 # lexemes of a little more than 50 bytes (Token's Debug abbreviates values above 50 bytes), multi-byte where the
 # recognizer admits it, made of characters the short string terminals of the pool do not match (a GLR parser with
 # lexical ambiguity over single letters would otherwise face dozens of tokens on a wildly ambiguous grammar)
-LONG_LEXEMES = {r"[α-ω]+": "αβγ" * 10, r'"[^"]*"': '"' + "é" * 27 + '"', r"[A-Z]\w*": "X" + "é" * 27,
+LONG_LEXEMES = {r"[α-ω]+": "αβγ" * 10, r'"[^"]*"': '"' + "é" * 27 + '"', r"[A-Z]\w*": "X" + "é" * 27 + "a",
                 r"[a-z]+": "zq" * 28}
 
 
